@@ -241,6 +241,11 @@ func runC08(r *vk.Run) {
 	r.Phase("containers", r.N(1200, 300000), func(c *vk.Case) {
 		rng := c.Rng
 		inv := genMergeInventory(rng, rng.Range(1, 7), 8)
+		if c.Idx%8 == 3 {
+			// a host with many matching containers: every one of them is read, however many requests that takes
+			inv = genMergeInventory(rng, vk.Pick(rng, []int{9, 12, 17, 24, 33, 40}), 3)
+			c.Count("container_cases_with_9plus_containers", 1)
+		}
 		ordered := true
 		var all []int64
 		// records may be identical across replicas and repeated inside one container: count them
@@ -363,6 +368,7 @@ func runC08(r *vk.Run) {
 		}
 	})
 	r.Require("container_truncating_limits_3plus", 300)
+	r.Require("container_cases_with_9plus_containers", 100)
 	r.Require("out_of_order_arrivals", 100)
 	// "every entry sits in the stream carrying exactly its labels" includes the labels the engine adds
 	// itself (__error__, __error_details__): each record is evaluated alone, which gives its final
